@@ -366,6 +366,12 @@ static int check_file(const char *filename, int algorithm)
         }
     }
 
+    /* Did reading the checksum file itself fail part of the way through? */
+    if (ferror(file)) {
+        perror(filename);
+        ok = 0;
+    }
+
     /* Report overall results */
     if (!found) {
         fprintf(stderr, "%s: no properly formatted checksum lines found\n",
